@@ -15,6 +15,7 @@ func rulesC08(c *Ctx, r *Report) {
 	rulesStepsReversed(c, r)
 	rulesTracePanics(c, r)
 	rulesFillAllCells(c, r)
+	rulesStepsAsTraced(c, r) // the steps and score returned are the traceback's own, unchanged
 	rulesTraceStart(c, r)
 	rulesPureAlign(c, r)
 }
